@@ -69,7 +69,14 @@ impl ZkirRelation {
 
         // If the public input types are not known, we can initialize them with an
         // in-circuit parser pass.
-        dummy_synthesize_run(&MidnightCircuit::from_relation(self))?;
+        // A fixed `max_bit_len` is used on purpose: searching for the optimal one would
+        // panic (instead of returning the error) on programs rejected in-circuit.
+        dummy_synthesize_run(&MidnightCircuit::new(
+            self,
+            Value::unknown(),
+            Value::unknown(),
+            Some(8),
+        ))?;
         let pi_types = self.public_input_types.borrow().clone();
         assert_eq!(pis.len(), pi_types.len());
         Ok(pis.into_iter().zip(pi_types).collect())
